@@ -176,6 +176,90 @@ def prop(case):
     return {"nontrivial": bool(nt), "tags": tags}
 
 
+def make_fragile(case):
+    """Interval bounds of constraints / relations moved one ulp off the axis values they coincide with, and (for linked groups
+    with a tolerance) later datasets shifted by an exactly representable offset: which points an item covers is then float-
+    fragile and left open - but whatever the code decides, the result must be consistent with itself."""
+    import copy
+
+    c = copy.deepcopy(case)
+    axis_values = {g for d in c["datasets"] for g in d["global_axis"]}
+    k = 0
+
+    def nudge(iv):
+        nonlocal k
+        out = []
+        for b in iv:
+            if b in axis_values:
+                k += 1
+                b = float(np.nextafter(b, np.inf if k % 2 else -np.inf))
+            out.append(b)
+        return out
+
+    for item in c.get("constraints", []) + c.get("relations", []):
+        iv = item.get("interval")
+        if iv is None:
+            continue
+        item["interval"] = nudge(iv) if not isinstance(iv[0], (list, tuple)) else [nudge(x) for x in iv]
+    if c.get("clp_link_tolerance", 0) > 0:
+        for i, d in enumerate(c["datasets"][1:], start=1):
+            off = [0.0, 0.125, -0.125, 0.25][(i + len(d["global_axis"])) % 4]
+            d["global_axis"] = [g + off for g in d["global_axis"]]
+    return c
+
+
+def prop_identities(case):
+    """The identities of the statement that need no reference: they must hold whatever the (possibly float-fragile) decisions
+    about intervals and alignment were."""
+    why = conflicts(case)
+    if why:
+        raise Discard(why)
+    with warnings.catch_warnings():
+        warnings.simplefilter("ignore")
+        try:
+            scheme, result = schemes.run_fit(case)
+        except Discard:
+            raise
+        except Exception as e:  # noqa: BLE001  (degenerate / refused schemes are decided by the other sub-checks and by C09)
+            raise Discard(f"scheme not optimisable: {type(e).__name__}")
+    for d in case["datasets"]:
+        lab = d["label"]
+        ds = result.data[lab]
+        raw, _ = schemes.dataset_arrays(d)
+        scale = max(1.0, float(np.abs(raw).max()))
+        g = np.asarray(d["global_axis"], float)
+
+        def arr(var):
+            return ds[var].transpose("model", "global").values
+
+        e = np.abs(arr("data") - arr("fitted_data") - arr("residual")).max()
+        check(e <= 1e-12 * scale, "identities.data_eq_fit_plus_residual", lambda: f"{lab}: {e:.3e}")
+        if "weight" in ds:
+            e = np.abs(arr("weighted_residual") - arr("weight") * arr("residual")).max()
+            check(e <= 1e-10 * scale, "identities.weighted_residual", lambda: f"{lab}: {e:.3e}")
+        M, C = ds["matrix"], ds["clp"]
+        sc = float(ds.attrs["dataset_scale"])
+        fitted = arr("fitted_data")
+        if d.get("global_megacomplex"):
+            continue
+        if abs(sc) < 1e-6:
+            # an optimiser step may drive a free dataset scale to (nearly) zero: the linear problem is then rank deficient, which is
+            # outside the statement of C01 (full column rank) and leaves clp and residual undefined
+            raise Discard("dataset scale optimised to zero: rank-deficient linear problem")
+        for gi, gv in enumerate(g):
+            Mi = (M.sel({"global": gv}) if "global" in M.dims else M).transpose("model", "clp_label")
+            sv = np.linalg.svd(Mi.values, compute_uv=False)
+            if sv[-1] <= 1e-10 * sv[0]:
+                raise Discard("rank-deficient matrix at an index")
+            rec = np.zeros(fitted.shape[0])
+            for b in map(str, C.coords["clp_label"].values):
+                rec += sc * Mi.sel(clp_label=b).values * float(C.sel({"global": gv, "clp_label": b}))
+            e = np.abs(rec - fitted[:, gi]).max()
+            check(e <= 1e-9 * scale, "identities.fitted_eq_scale_matrix_clp", lambda: f"{lab}@{gv!r}: |scale*matrix*clp - fitted| = {e:.3e}")
+    f = features(case)
+    return {"nontrivial": bool(case.get("constraints") or case.get("relations")), "tags": f + (["offset_axes"] if case.get("clp_link_tolerance", 0) > 0 else [])}
+
+
 PROPERTY = Property(
     id="C03",
     level="exploration",
@@ -192,6 +276,9 @@ PROPERTY = Property(
         Sub("tolerance", prop=prop, strategy=lambda: schemes.fit_cases(labels="confusable", link_tolerance=True, allow_full=False).filter(
             lambda c: c["clp_link_tolerance"] > 0), budget={"quick": 250, "thorough": 20000},
             doc="linked groups with clp_link_tolerance > 0 and all three link methods (alignment by the C09 reference model)"),
+        Sub("identities", prop=prop_identities, strategy=lambda: schemes.fit_cases(labels="neutral", link_tolerance=True, allow_full=False).map(make_fragile),
+            budget={"quick": 400, "thorough": 30000},
+            doc="reference-free identities on schemes whose interval bounds sit one ulp off axis values and whose linked axes are offset"),
     ],
     assumptions=[
         "reference objective trusted (vlib/oracle/refobjective.py)",
